@@ -2184,6 +2184,15 @@ func runFarm(run *ev.Run, c int, mode string) {
 				}
 			}
 		}
+		// the authority moves the pool creation fee and its tax rate around (odd amounts, rates whose product with the fee
+		// is fractional, the extremes): the fee of every later pool creation is split under the values in force
+		if b > 2 && b%19 == 7 {
+			p := v.s.Params
+			p.PoolCreationFee = sdk.NewCoin(p.PoolCreationFee.Denom, toInt(pick(rng, big.NewInt(5001), big.NewInt(1), big.NewInt(7), big.NewInt(999), big.NewInt(5000), new(big.Int).Add(pow2(70), bigOne))))
+			p.TaxRate = pick(rng, sdkmath.LegacyNewDecWithPrec(4, 1), sdkmath.LegacyNewDecWithPrec(333333333333333333, 18), sdkmath.LegacySmallestDec(), sdkmath.LegacyOneDec().Sub(sdkmath.LegacySmallestDec()), sdkmath.LegacyNewDecWithPrec(5, 1), sdkmath.LegacyZeroDec(), sdkmath.LegacyOneDec())
+			extra = append(extra, r.InjectRoute(g.stranger, &farmTag{Kind: "params", Note: "fee-and-tax"}, &farmtypes.MsgUpdateParams{Authority: r.GovAddr.String(), Params: p}))
+			run.Count("farm-fee-parameters-changed", 1)
+		}
 		// periodic short-lived pools so that natural expiry keeps happening
 		if b > 2 && b%23 == 0 && b < endgame && len(v.s.Pools) < g.maxPools {
 			add(g.mkCreate(v, g.pickRegime(), 4+rng.Intn(6), int64(rng.Intn(2)), 1+rng.Intn(maxInt(maxCat, 1)), rng.Intn(2) == 0))
